@@ -22,7 +22,8 @@ EXPLANATION = (
     "chunk to be non-empty, so Some(empty) comes back as None (KNOWN FINDING, DESIGN.md section 5 #9); (R10 = C01.R7) the client "
     "writes exactly that layout - len|measurement, then len|aux iff aux is Some, nothing before, between or after (padding or a "
     "trailer would reach the reader's second load_bytes).  NOT decided: "
-    "decryption correctness, HashMap iteration order effects on the order of outputs.")
+    "decryption correctness, HashMap iteration order effects on the order of outputs."
+    "  Also (R11 = C04.R2) the local randomness - hence tag and key - is keyed by the complete measurement bytes, so different measurements do not share a bucket.")
 ASSUMPTIONS = ["rayon's map/collect over an indexed parallel iterator preserve one result per input item"]
 TRUSTED = []
 
@@ -231,6 +232,10 @@ def run(ctx):
     # ---- R10 the client writes exactly the layout the reader below walks: len|measurement [len|aux], nothing after it -------
     c01.payload_framing(ctx, "C18.R10")
     ctx.floor("C18.R10", 3)
+    # ---- R11 buckets are keyed by a tag that is derived from the whole measurement (C04.R2 re-run) ---------------------------
+    from . import c04
+    c04.measurement_keyed_whole(ctx, "C18.R11")
+    ctx.floor("C18.R11", 1)
 
     # ---- R7 equality check before output ------------------------------------------------------------------------------------
     div = [e for e in Q.calls(eng, None) if e["diverges"] and e.get("home_fn", e["fn"]).endswith("recover_measurements")]
